@@ -365,6 +365,31 @@ impl Prop for Times {
                 Err(e) => acc.fail(e),
             }
         }
+        // metamorphic: the time (with its zone) held in a name bound on an earlier line is that time
+        let mut via_checked = false;
+        if acc.ok() && c.zbits % 4 == 1 && matches!(slot, Slot::Ok { .. }) && !matches!(c.shape, Shape::Literal(..)) {
+            let whole = case_line(c);
+            let n_first = match &c.shape {
+                Shape::Convert(_, Some(_), _, _) | Shape::RoundTrip(..) | Shape::Arith(_, Some(_), _, _) | Shape::DiffZoned(..) => 2,
+                _ => 1,
+            };
+            let text2 = whole.via_variable(0, n_first, if c.zbits % 8 == 1 { "start" } else { "shift start" }, ",", ".");
+            match w.eval(&cfg, "en", &text2) {
+                Ok(o) if o.slots.len() == 2 => {
+                    via_checked = true;
+                    let s2 = &o.slots[1];
+                    let same = match (&slot, s2) {
+                        (Slot::Ok { v: V::Time(t1, _, n1, o1), out: out1 }, Slot::Ok { v: V::Time(t2, _, n2, o2), out: out2 }) => displayed(*t1, *o1) == displayed(*t2, *o2) && n1 == n2 && o1 == o2 && out1 == out2,
+                        (a, b) => a.same(b),
+                    };
+                    if !same {
+                        acc.fail(format!("{:?} gives {} but with the time held in a name ({:?}) it gives {}", line, slot.brief(), text2, s2.brief()));
+                    }
+                }
+                Ok(o) => acc.fail(format!("{} slots for the two lines {:?}", o.slots.len(), text2)),
+                Err(p) => acc.fail(format!("{:?}: panic at {}: {}", text2, p.site, p.message)),
+            }
+        }
         let (o1, o2): (i32, i32) = match &c.shape {
             Shape::Convert(_, z1, _, z2) => (z1.clone().or(c.default_tz.clone()).map(|z| z.offset()).unwrap_or(0), z2.offset()),
             _ => (0, 0),
@@ -407,6 +432,7 @@ impl Prop for Times {
             .class_if(o2 > 0, "target-east-of-greenwich")
             .class_if(c.default_tz.as_ref().map_or(false, |z| z.offset() != 0), "default-zone-not-utc")
             .class_if(tl.form >= 2, "am-pm-form")
+            .class_if(via_checked, "time-also-via-a-variable")
             .class_if(matches!(&c.shape, Shape::Convert(_, _, _, Zone::Gmt(..)) | Shape::Convert(_, Some(Zone::Gmt(..)), _, _)), "gmt-offset-form")
             .class_if(matches!(&c.shape, Shape::Arith(_, _, _, d) if d.negative), "negative-duration-literal")
     }
@@ -613,7 +639,7 @@ pub fn settz_strategy() -> impl Strategy<Value = SetTz> {
 
 pub fn run(ctx: &Ctx) {
     let _ = monotone_index(0, 1);
-    ctx.rule("generated: times H:MM[:SS] (0-23, with/without leading zero) and h[:MM] am|pm (1-11, any letter case, with/without the blank), optional zone = every table abbreviation of 2-4 capitals that means nothing else to the lexer, GMT, UTC, GMT+-h, GMT+-h:mm, GMT+-hhmm (h 0-19); T [Z1] to|as|in|into Z2, Z1->Z2->Z1 chains, T [Z] +- durations (1-3 parts, seconds..days plus long ones in weeks, years, tens of millions of hours and up to 2^32 seconds, negative-literal counts), T1 to T2; default zone from a pool set through set_timezone; set_timezone call sequences incl. rejected strings; ALL ordered zone pairs enumerated at fixed wall times; oracle: offsets from the zone table of config.json, shown = wall - off(Z1) + off(Z2) mod 24 h read from the AST (instant + offset) and from the printed 'HH:MM:SS NAME', arithmetic mod 24 h, |T2-T1| for differences, independence from the default zone when Z1 is explicit; non-trivial = off(Z1) != off(Z2) / duration not a multiple of 24 h / distinct times");
+    ctx.rule("generated: times H:MM[:SS] (0-23, with/without leading zero) and h[:MM] am|pm (1-11, any letter case, with/without the blank), optional zone = every table abbreviation of 2-4 capitals that means nothing else to the lexer, GMT, UTC, GMT+-h, GMT+-h:mm, GMT+-hhmm (h 0-19); T [Z1] to|as|in|into Z2, Z1->Z2->Z1 chains, T [Z] +- durations (1-3 parts, seconds..days plus long ones in weeks, years, tens of millions of hours and up to 2^32 seconds, negative-literal counts), T1 to T2; default zone from a pool set through set_timezone; set_timezone call sequences incl. rejected strings; ALL ordered zone pairs enumerated at fixed wall times; metamorphic step (a quarter of the cases): the time (with its zone) also held in a name bound on an earlier line; oracle: offsets from the zone table of config.json, shown = wall - off(Z1) + off(Z2) mod 24 h read from the AST (instant + offset) and from the printed 'HH:MM:SS NAME', arithmetic mod 24 h, |T2-T1| for differences, independence from the default zone when Z1 is explicit; non-trivial = off(Z1) != off(Z2) / duration not a multiple of 24 h / distinct times");
     ctx.assume("12:xx am/pm is left out (pinned by the suite); T1 Z1 to T2 Z2 with different zones is not generated (the statement does not define it)");
     let times: &[(u8, u8)] = match ctx.tier {
         crate::engine::Tier::Quick => &[(10, 30), (23, 45)],
